@@ -12,6 +12,9 @@ use crate::outstation::Feature;
 pub(crate) mod mock;
 #[cfg(not(test))]
 pub(crate) mod real;
+#[cfg(all(test, dnp3_verif))]
+#[path = "real/mod.rs"]
+pub(crate) mod real;
 
 mod reader;
 mod types;
